@@ -28,6 +28,16 @@ fn bound(r: &mut Rng) -> String {
     match r.below(12) {
         0 => String::new(),
         1 => "0".into(),
+        2 if r.chance(1, 2) => {
+            // a digit run padded with leading zeros beyond 18 characters
+            let v = loop {
+                let v = gv::v_safe(r);
+                if !v.contains('=') {
+                    break v;
+                }
+            };
+            gv::pad_zeros(r, &v)
+        }
         _ => loop {
             let v = gv::v_safe(r);
             if !v.contains('=') {
@@ -99,8 +109,8 @@ fn expected_match(d: &opat::RefDewey, name: &str) -> Option<bool> {
     let mut all = true;
     for (op, bnd) in &d.bounds {
         let s = od::satisfies(v, *op, bnd);
-        if s.rank != s.ascii || !s.in_domain {
-            return None; // outside the K1-free / 18-digit domain: no comparison
+        if s.rank != s.ascii || !s.in_domain_padded {
+            return None; // outside the K1-free / 18-significant-digit domain: no comparison
         }
         all &= s.rank;
     }
@@ -238,12 +248,14 @@ pub fn run(cx: &mut Cx) {
             // that ranges whose ends tie are reached.
             let b = if !bounds.is_empty() && r.chance(1, 4) {
                 let first: &String = &bounds[0];
-                match r.below(6) {
+                match r.below(8) {
                     0 => first.clone(),
                     1 => format!("{first}.0"),
                     2 => format!("{first}pl"),
                     3 => format!("{first}_"),
                     4 => format!("{first}.0.0"),
+                    5 => gv::neighbour(&mut r, first, false),
+                    6 => format!("{first}{}", r.pick(&["rc1", "alpha", "nb1", "nb2", ".1", "pre2"])),
                     _ => first.strip_suffix(".0").map(|x| x.to_string()).unwrap_or_else(|| format!("{first}pl0")),
                 }
             } else {
@@ -268,10 +280,10 @@ pub fn run(cx: &mut Cx) {
             // versions near the bounds so that both verdicts occur
             let v = if !bounds.is_empty() && r.chance(2, 3) {
                 let b = r.pick(&bounds).clone();
-                if r.chance(1, 3) {
-                    b
-                } else {
-                    gv::neighbour(&mut r, &b, false)
+                match r.below(9) {
+                    0..=2 => b,
+                    3 => gv::pad_zeros(&mut r, &b),
+                    _ => gv::neighbour(&mut r, &b, false),
                 }
             } else {
                 gv::v_safe(&mut r)
